@@ -488,21 +488,22 @@ func (ex *Exec) chanSend(ch *ChanObj, v Value) {
 	if ch == nil {
 		panic(&pathEnd{kind: "done", msg: "blocked forever: send on nil channel"})
 	}
+	ex.preemptPoint()
 	if ch.Closed {
 		panic(&goPanic{runtime: "send on closed channel", where: ex.where(), val: IfaceV{T: types.Typ[types.String], V: ex.mkStr("send on closed channel")}})
 	}
-	if len(ch.Buf) < ch.Cap || ch.Cap == 0 && len(ch.Buf) == 0 {
-		// unbuffered channels are modelled as a one-slot rendezvous buffer in sequential mode
-		ch.Buf = append(ch.Buf, v)
+	// unbuffered channels are modelled as a one-slot rendezvous buffer
+	room := func() bool { return ch.Closed || len(ch.Buf) < ch.Cap || ch.Cap == 0 && len(ch.Buf) == 0 }
+	if !room() {
+		ex.block(room, "channel send")
+	}
+	if ch.Closed {
+		panic(&goPanic{runtime: "send on closed channel", where: ex.where(), val: IfaceV{T: types.Typ[types.String], V: ex.mkStr("send on closed channel")}})
+	}
+	ch.Buf = append(ch.Buf, v)
+	if ex.cur == nil && !ex.explore {
 		ex.runGoroutines()
-		return
 	}
-	ex.runGoroutines()
-	if len(ch.Buf) < ch.Cap || ch.Cap == 0 && len(ch.Buf) == 0 {
-		ch.Buf = append(ch.Buf, v)
-		return
-	}
-	panic(ex.unsupported("send would block (sequential mode)"))
 }
 
 func (ex *Exec) chanRecv(ch *ChanObj, block bool) (Value, bool) {
@@ -510,21 +511,23 @@ func (ex *Exec) chanRecv(ch *ChanObj, block bool) (Value, bool) {
 	if ch == nil {
 		panic(ex.unsupported("receive on nil channel blocks forever"))
 	}
-	if len(ch.Buf) == 0 && !ch.Closed {
+	ex.preemptPoint()
+	avail := func() bool { return len(ch.Buf) > 0 || ch.Closed }
+	if !avail() && ex.cur == nil {
 		ex.runGoroutines()
+	}
+	if !avail() {
+		if !block {
+			return nil, false
+		}
+		ex.block(avail, "channel receive")
 	}
 	if len(ch.Buf) > 0 {
 		v := ch.Buf[0]
 		ch.Buf = ch.Buf[1:]
 		return v, true
 	}
-	if ch.Closed {
-		return ex.zero(ch.T.Elem()), false
-	}
-	if !block {
-		return nil, false
-	}
-	panic(ex.unsupported("receive would block (sequential mode)"))
+	return ex.zero(ch.T.Elem()), false
 }
 
 type pendingGo struct {
@@ -546,21 +549,7 @@ func (ex *Exec) goStmt(fr *frame, cc *ssa.CallCommon) {
 	for _, a := range cc.Args {
 		args = append(args, ex.get(fr, a))
 	}
-	ex.goq = append(ex.goq, pendingGo{fv, args})
-}
-
-// runGoroutines runs queued goroutines to completion, in spawn order.
-func (ex *Exec) runGoroutines() {
-	if ex.inGo {
-		return
-	}
-	ex.inGo = true
-	defer func() { ex.inGo = false }()
-	for len(ex.goq) > 0 {
-		g := ex.goq[0]
-		ex.goq = ex.goq[1:]
-		ex.call(g.fv, g.args)
-	}
+	ex.spawn(fv, args)
 }
 
 func (ex *Exec) selectOp(fr *frame, x *ssa.Select) Value {
@@ -594,9 +583,14 @@ func (ex *Exec) selectOp(fr *frame, x *ssa.Select) Value {
 		}
 		return r
 	}
+	ex.preemptPoint()
 	r := ready()
-	if len(r) == 0 && x.Blocking {
+	if len(r) == 0 && ex.cur == nil && x.Blocking {
 		ex.runGoroutines()
+		r = ready()
+	}
+	if len(r) == 0 && x.Blocking {
+		ex.block(func() bool { return len(ready()) > 0 }, "select")
 		r = ready()
 	}
 	nrecv := 0
